@@ -23,7 +23,7 @@ RULE = ("(1) seeded (key set, certificate list, server, times) tuples against al
         "a case is one call of the returned predicate; distinct = distinct (symbolic verifier line, time); non-trivial = at "
         "least one key configured and at least one certificate present.  (2) seeded HISTORIES on a long-lived real StorageFarmBroker "
         "(grid-manager keys from tahoe.cfg text; servers announced with certificate sets valid-1h / valid-2h / expired+valid / expired / "
-        "none / wrong key / other server's / tampered) driven through a virtual clock patched into "
+        "none / wrong key / other server's / tampered / entries SignedCertificate.load cannot decode, alone and mixed) driven through a virtual clock patched into "
         "allmydata.grid_manager.current_datetime_with_zone: at expiry-1us, expiry, expiry+1us and later instants "
         "get_servers_for_psi(for_upload=True/False) and IServer.upload_permitted() are called repeatedly, with identical and renewed "
         "re-announcements in between; the model's permitted(t) is a pure function of (certificates, keys, t) and the broker's offered "
@@ -414,7 +414,9 @@ def server_strings(rng):
 FURL = "pb://62ubehyunnyhzs7r6vdonnm2hpi52w6y@127.0.0.1:1/x"
 CLOCK = [None]
 H = 3600 * 10**6
-TEMPLATES = ["valid-1h", "valid-2h", "expired+valid", "expired", "none", "wrong-key", "other-server", "tampered", "valid-short", "two-valid"]
+UNDEC = ["sig-not-base32", "no-signature", "no-certificate", "signature-not-string", "certificate-not-string", "signature-null",
+         "entry-not-object", "sig-non-ascii"]
+TEMPLATES = ["undecodable", "undecodable+", "valid-1h", "valid-2h", "expired+valid", "expired", "none", "wrong-key", "other-server", "tampered", "valid-short", "two-valid"]
 
 
 def _b32(b):
@@ -427,6 +429,14 @@ def certset(rng, template, i, n, keys, t0):
     g = lambda: rng.choice(keys) if keys else rng.randrange(N_GM)
     foreign = [x for x in range(N_GM) if x not in keys] or [0]
     short = t0 + rng.choice([1, 2, 1000, 10**6])
+    if template in ("undecodable", "undecodable+"):
+        # an entry SignedCertificate.load cannot decode, alone or at a random position among invalid (rarely valid) certificates
+        rest = []
+        if template == "undecodable+":
+            for _ in range(rng.choice([1, 1, 2])):
+                rest += certset(rng, rng.choice(["expired", "wrong-key", "other-server", "tampered", "expired", "valid-1h"]), i, n, keys, t0)
+        rest.insert(rng.randrange(len(rest) + 1), {"k": "undecodable", "how": rng.choice(UNDEC), "gm": g(), "for": i, "exp": t0 + H})
+        return rest
     if template == "valid-1h":
         return [{"k": "valid", "gm": g(), "for": i, "exp": t0 + H}]
     if template == "valid-2h":
@@ -508,6 +518,29 @@ def cert_dicts(case, gms, srv_strings, i, v):
                               separators=(",", ":"), sort_keys=True).encode("utf-8")
         b = body(c["exp"])
         meta = {"kind": "valid", "signer": c["gm"], "intact": True, "server": c["for"], "exp": c["exp"], "wellformed": True}
+        if c["k"] == "undecodable":
+            # what would be a perfectly valid certificate for this server, except that the entry cannot be decoded
+            good = {"certificate": b.decode("utf-8"), "signature": _b32(ed25519.sign_data(gms[c["gm"]][0], b))}
+            how = c["how"]
+            if how == "sig-not-base32":
+                j = (c["exp"] + c["for"]) % len(good["signature"])
+                good["signature"] = good["signature"][:j] + "0189!_"[(c["exp"] + j) % 6] + good["signature"][j + 1:]
+            elif how == "no-signature":
+                del good["signature"]
+            elif how == "no-certificate":
+                del good["certificate"]
+            elif how == "signature-not-string":
+                good["signature"] = 5
+            elif how == "certificate-not-string":
+                good["certificate"] = [good["certificate"]]
+            elif how == "signature-null":
+                good["signature"] = None
+            elif how == "sig-non-ascii":
+                good["signature"] = good["signature"][:-1] + "\u00e9"
+            else:
+                good = "not an object"
+            res.append({"undecodable": how, "entry": good})
+            continue
         if c["k"] == "tampered":
             orig = body(c["exp"] - 400 * 24 * H)           # an old certificate, its expiry date rewritten under the old signature
             sig = ed25519.sign_data(gms[c["gm"]][0], orig)
@@ -556,10 +589,21 @@ def run_history(ctx, case, workdir, lines_b, impl_b, cases_b, direct, offers):
         cs = certs.setdefault((i, v), cert_dicts(case, gms, srv_strings, i, v))
         ann = {"service-name": "storage", "anonymous-storage-FURL": FURL, "nickname": "srv%d-v%d" % (i, v)}
         if cs:
-            ann["grid-manager-certificates"] = [{"certificate": bytes.fromhex(c["certificate"]).decode("utf-8"),
+            ann["grid-manager-certificates"] = [c["entry"] if "undecodable" in c else
+                                                {"certificate": bytes.fromhex(c["certificate"]).decode("utf-8"),
                                                  "signature": _b32(bytes.fromhex(c["signature"]))} for c in cs]
-        with contextlib.redirect_stdout(io.StringIO()):
-            sb._got_announcement(sids[i], ann)
+        undec = [c["undecodable"] for c in cs if "undecodable" in c]
+        try:
+            with contextlib.redirect_stdout(io.StringIO()):
+                sb._got_announcement(sids[i], ann)
+        except Exception as e:
+            # the unchanged tree: SignedCertificate.load raises, the whole announcement is refused, no (new) server object
+            ctx.count("undecodable-entry:announcement-refused:" + type(e).__name__)
+            if not undec:
+                raise
+            return None
+        if undec:
+            ctx.count("undecodable-entry:announcement-accepted")
         srv = sb.servers[sids[i]]
         srv._rref = object()            # as StorageFarmBroker.test_add_rref does
         srv._is_connected = True
@@ -567,7 +611,10 @@ def run_history(ctx, case, workdir, lines_b, impl_b, cases_b, direct, offers):
 
     def permitted(i, v, t):
         return (not keys) or any(c["meta"]["intact"] and c["meta"]["signer"] in keys and c["meta"]["server"] == i and c["meta"]["exp"] > t
-                                 for c in certs[(i, v)])
+                                 for c in good(i, v))
+
+    def good(i, v):
+        return [c for c in certs[(i, v)] if "undecodable" not in c]
 
     import base64
     import hashlib
@@ -582,37 +629,44 @@ def run_history(ctx, case, workdir, lines_b, impl_b, cases_b, direct, offers):
     def offer_line(fu, psi, t):
         tk = Tokeniser(gms, srv_strings, sigcache)
         for i in range(n):
-            tk.learn(certs[(i, cur[i])])
+            tk.learn(good(i, cur[i]))
         groups = []
-        for i in [sids.index(s.get_serverid()) for s in sb.get_connected_servers()]:
-            groups.append("S %d 1 %s %s" % (i, hashlib.sha1(psi + seeds[i]).hexdigest(), " ".join(tk.tok(c) for c in certs[(i, cur[i])])))
+        conn = [sids.index(s.get_serverid()) for s in sb.get_connected_servers()]
+        for i in conn + [j for j in range(n) if j not in conn]:       # then the servers whose announcement was refused
+            groups.append("S %d 1 %s %s" % (i, hashlib.sha1(psi + seeds[i]).hexdigest(),
+                                            " ".join("U" if "undecodable" in c else tk.tok(c) for c in certs[(i, cur[i])])))
         return " ".join(("offer %s %s %d a%d %s" % (",".join(map(str, keys)) or "-", ",".join(map(str, pref_ids)) or "-",
                                                     1 if fu else 0, t, " ".join(groups))).split())
 
     CLOCK[0] = dt_of("a%d" % BASE_US)
     cur = [0] * n
     since = [BASE_US] * n          # when the current server object was created
-    for i in range(n):
-        announce(i, 0, 0)
+    present = [announce(i, 0, 0) is not None for i in range(n)]
     obs = {}
     t = BASE_US
     for ei, ev in enumerate(case["events"]):
         if ev[0] == "t":
             t = ev[1]
             CLOCK[0] = dt_of("a%d" % t)
-            at_exp = any(c["meta"]["exp"] == t for i in range(n) for c in certs[(i, cur[i])])
+            at_exp = any(c["meta"]["exp"] == t for i in range(n) for c in good(i, cur[i]))
             ctx.count("broker-clock:" + ("at-an-expiry-instant" if at_exp else "other"))
         elif ev[0] == "ann":
             i, v = ev[1], ev[2]
-            old = sb.servers[sids[i]]
+            old = sb.servers.get(sids[i])
             new = announce(i, v, ei)
-            ctx.count("broker-reannounce:" + ("identical-ignored" if new is old else "replaced"))
-            if new is not old:
-                cur[i], since[i] = v, t
+            ctx.count("broker-reannounce:" + ("refused" if new is None else "identical-ignored" if new is old else "replaced"))
+            if new is not None and new is not old:
+                cur[i], since[i], present[i] = v, t, True
         elif ev[0] == "p":
             i = ev[1]
+            if not present[i]:
+                continue
             got, want = sb.servers[sids[i]].upload_permitted(), permitted(i, cur[i], t)
-            if got is not want:
+            if got and not want and any("undecodable" in c for c in certs[(i, cur[i])]):
+                ctx.violation("IServer.upload_permitted() is True for a server whose announcement holds an undecodable certificate entry "
+                              "and no currently valid certificate", dict(case, at={"event": ei, "t": t, "server": i}),
+                              "granted-wrongly:undecodable-entry")
+            elif got is not want:
                 ctx.violation("IServer.upload_permitted() = %r differs from the documented predicate at the current time" % (got,),
                               dict(case, at={"event": ei, "t": t, "server": i}), "upload-permitted-wrong:" + ("granted" if got else "denied"))
         else:
@@ -623,6 +677,17 @@ def run_history(ctx, case, workdir, lines_b, impl_b, cases_b, direct, offers):
             ctx.count("broker-query:for_upload=%d" % fu)
             for i in range(n):
                 v = cur[i]
+                undec = sorted(set(c["undecodable"] for c in certs[(i, v)] if "undecodable" in c))
+                if not present[i]:
+                    ctx.count("undecodable-entry:server-absent-at-query")
+                    continue
+                if undec:
+                    # a tolerant implementation kept the server: fine, as long as the undecodable entry grants nothing
+                    if fu and (i in offered) and not permitted(i, v, t):
+                        ctx.violation("server offered for upload although its announcement holds an undecodable certificate entry (%s) and no "
+                                      "currently valid certificate for it; grid-manager keys are configured" % "+".join(undec),
+                                      dict(case, at={"event": ei, "t": t, "server": i}), "granted-wrongly:undecodable-entry")
+                    continue
                 if not fu:
                     if i not in offered:
                         ctx.violation("a connected server is missing from get_servers_for_psi(for_upload=False)",
@@ -635,13 +700,13 @@ def run_history(ctx, case, workdir, lines_b, impl_b, cases_b, direct, offers):
                 if (i in offered) and not want:
                     kinds = sorted(set(("expired" if (c["meta"]["kind"] == "valid" and c["meta"]["signer"] in keys and c["meta"]["server"] == i) else
                                         "wrong-key" if (c["meta"]["kind"] == "valid" and c["meta"]["server"] == i) else
-                                        "other-server" if c["meta"]["kind"] == "valid" else "tampered") for c in certs[(i, v)])) or ["none"]
+                                        "other-server" if c["meta"]["kind"] == "valid" else "tampered") for c in good(i, v))) or ["none"]
                     sig = "at-or-after-expiry" if permitted(i, v, since[i]) else "never-valid:" + "+".join(kinds)
                     if i in case.get("preferred", []):
                         sig += ":preferred-server"
                     ctx.violation("server offered for upload without a currently valid grid-manager certificate (%d us after its last "
                                   "certificate for this server expired or never valid; server object in use since T0+%dus, now T0+%dus)"
-                                  % (t - max([c["meta"]["exp"] for c in certs[(i, v)] if c["meta"]["intact"] and c["meta"]["signer"] in keys
+                                  % (t - max([c["meta"]["exp"] for c in good(i, v) if c["meta"]["intact"] and c["meta"]["signer"] in keys
                                               and c["meta"]["server"] == i] or [t]), since[i] - BASE_US, t - BASE_US),
                                   dict(case, at={"event": ei, "t": t, "server": i}), "offered-for-upload-without-valid-cert:" + sig)
                 elif (i not in offered) and want:
@@ -649,7 +714,7 @@ def run_history(ctx, case, workdir, lines_b, impl_b, cases_b, direct, offers):
                                   dict(case, at={"event": ei, "t": t, "server": i}), "valid-cert-not-offered-for-upload")
     # the same (certificates, keys, instants) through the direct verifier and the Lean model: the broker must equal both
     for (i, v), ol in sorted(obs.items()):
-        dcase = {"gm_seeds": case["gm_seeds"], "keys": keys, "me": i, "certs": certs[(i, v)], "times": ["a%d" % tt for (tt, _) in ol],
+        dcase = {"gm_seeds": case["gm_seeds"], "keys": keys, "me": i, "certs": good(i, v), "times": ["a%d" % tt for (tt, _) in ol],
                  "srv_strings": [s.decode("ascii") for s in srv_strings]}
         out, line, res = run_case(ctx, dcase, srv_strings)
         monitor(ctx, dcase, res)
@@ -700,10 +765,45 @@ def direct_corpus(srv_strings):
     return res
 
 
+def undecodable_history():
+    """every kind of undecodable certificate entry — alone, and before / between / after expired, wrong-key, other-server and
+    tampered certificates — each on its own server, plus clean servers; queried at T0 and later (seed C33-d turned such an
+    announcement into 'no grid-manager keys configured')"""
+    import random
+    rng = random.Random("C33-undecodable")
+    t0 = BASE_US
+    keys = [0]
+    und = lambda how, i: {"k": "undecodable", "how": how, "gm": 0, "for": i, "exp": t0 + H}
+    exp = lambda i: {"k": "valid", "gm": 0, "for": i, "exp": t0 - 5}
+    foreign = lambda i: {"k": "valid", "gm": 3, "for": i, "exp": t0 + H}
+    versions = []
+    for how in UNDEC:
+        versions.append([[und(how, len(versions))]])
+    k = len(versions)
+    versions.append([[und("sig-not-base32", k), exp(k)]])
+    versions.append([[exp(k + 1), und("no-signature", k + 1)]])
+    versions.append([[foreign(k + 2), und("no-certificate", k + 2), {"k": "valid", "gm": 0, "for": 0, "exp": t0 + H}]])
+    versions.append([[{"k": "tampered", "gm": 0, "for": k + 3, "exp": t0 + H}, und("signature-null", k + 3), exp(k + 3)]])
+    versions.append([[{"k": "valid", "gm": 0, "for": k + 4, "exp": t0 + H}]])           # clean and valid
+    versions.append([[]])                                                              # clean, no certificates
+    n = len(versions)
+    events = [["t", t0]]
+    for i in range(n):
+        events.append(["p", i])
+    events += [["q", 1, "11" * 16], ["q", 0, "22" * 16], ["q", 1, "33" * 16]]
+    # a clean server re-announces with an undecodable entry (refused: the old object stays), an undecodable one re-announces clean
+    versions[k + 4].append([und("sig-not-base32", k + 4)])
+    versions[0].append([{"k": "valid", "gm": 0, "for": 0, "exp": t0 + 2 * H}])
+    events += [["ann", k + 4, 1], ["q", 1, "44" * 16], ["ann", 0, 1], ["q", 1, "55" * 16],
+               ["t", t0 + H], ["q", 1, "66" * 16], ["p", k + 4], ["t", t0 + 2 * H + 1], ["q", 1, "77" * 16], ["q", 0, "88" * 16]]
+    return {"kind": "broker", "preferred": [1, k], "gm_seeds": ["%02x" % (0x21 + i) * 32 for i in range(N_GM)], "keys": keys,
+            "srv_seeds": ["%02x" % (0x61 + i) * 32 for i in range(n)], "versions": versions, "events": events}
+
+
 def history_corpus():
     """one server per documented certificate situation, every expiry walked (expiry-1us, expiry, +1us, +1ms)"""
     import random
-    return [gen_history(random.Random("C33-corpus-%d" % k), fixed={"n": 8, "templates": ["valid-1h", "valid-2h", "expired+valid", "expired", "none",
+    return [undecodable_history()] + [gen_history(random.Random("C33-corpus-%d" % k), fixed={"n": 8, "templates": ["valid-1h", "valid-2h", "expired+valid", "expired", "none",
                                                                                           "wrong-key", "other-server", "tampered"]})
             for k in range(2)]
 
@@ -725,14 +825,15 @@ def run(ctx):
             srv_strings = [s.encode("ascii") for s in case.get("srv_strings", [x.decode() for x in srv_strings])]
             cases = [case]
     else:
-        n = ctx.budget(600, 25000)
+        corpus_only = bool(os.environ.get("VERIF_CORPUS_ONLY"))
+        n = 0 if corpus_only else ctx.budget(600, 25000)
         cases = direct_corpus(srv_strings)
         for _ in range(n):
             c = gen_case(ctx.rng, srv_strings)
             c["srv_strings"] = [s.decode("ascii") for s in srv_strings]
             cases.append(c)
         hrng = ctx.subrng("histories")
-        histories = history_corpus() + [gen_history(hrng) for _ in range(ctx.budget(150, 2500))]
+        histories = history_corpus() + ([] if corpus_only else [gen_history(hrng) for _ in range(ctx.budget(150, 2500))])
     # (2) broker histories on the virtual clock
     lines_b, impl_b, cases_b, direct, offers = [], [], [], [], []
     workdir = os.path.join(os.path.dirname(os.path.dirname(os.path.dirname(os.path.abspath(__file__)))), ".work")
